@@ -226,14 +226,17 @@ func stateAsof(args asofArgs) *DbState {
 	store := args.store
 	var offSchema, offInfo uint64
 	var t int64
+	var stateOff uint64 // the offset of the state that offSchema, offInfo, t belong to
 	off := store.Size()
 	for {
 		if off = store.LastOffset(off, magic1, nil); off == 0 {
 			break
 		}
-		if offSchema, offInfo, t = readState(store, off); t == 0 {
+		s, i, tm := readState(store, off)
+		if tm == 0 {
 			continue // invalid
 		}
+		offSchema, offInfo, t, stateOff = s, i, tm, off
 		if t <= args.asof {
 			break
 		}
@@ -241,7 +244,7 @@ func stateAsof(args asofArgs) *DbState {
 	if t == 0 {
 		panic("no state found")
 	}
-	return &DbState{store: store, Asof: t, Off: off,
+	return &DbState{store: store, Asof: t, Off: stateOff,
 		Meta: meta.ReadMeta(store, offSchema, offInfo)}
 }
 
